@@ -11,8 +11,8 @@ from pyvc.contract import Registry
 from pyvc.source import SourceDB
 from pyvc.verify import Verifier
 
-CONTRACT_MODULES = ['bitops', 'mdquery', 'script']
-SPEC_MODULES = ['bits']
+CONTRACT_MODULES = ['bitops', 'mdquery', 'script', 'coder']
+SPEC_MODULES = ['bits', 'coder']
 
 
 def build(repo=None, modules=None):
